@@ -396,6 +396,111 @@ def large_session(kind, n):
     return s, facts, text
 
 
+MEDIUM_FORMS = ["count_eq", "count_ge", "add_cond", "fold_or", "fold_and", "alldiff"]
+MEDIUM_NS = range(30, 261)
+
+
+def medium_session(n, form, sat):
+    """A MEDIUM-size session (n variables, brute force is out of the question) whose models are known BY CONSTRUCTION: all
+    variables but one or two are pinned by unit constraints and ONE constraint goes over all n of them through an n-ary form.
+    Returns (solver, bools, ints); solver._verif_sems = the shadow closures, solver._verif_models = the complete list of models
+    (empty when sat=False), solver._verif_point = the first model (or, when unsatisfiable, the pinned values with the free
+    positions filled in), solver._verif_nary = position of the n-ary constraint, solver._verif_text = description.
+    Free positions p = 5n/13 and q = 11n/13; position i is pinned to (i % 3 != 1); T = number of pinned-true positions.
+      count_eq : count_true(xs) == T+1 (two models: exactly one of p, q)           | == T+3 (unsatisfiable)
+      count_ge : count_true(xs) >= T+2 (one model: p and q)                        | >= T+3
+      add_cond : IntExpr(ADD, [x.cond(1, 0) for x in xs]) <= T (one model: neither)| < T
+      fold_or  : q pinned too; operands ~x_i / x_i all false by the pins, x_p      | p pinned false as well
+      fold_and : q pinned too; operands x_i / ~x_i all true by the pins, ~x_p      | p pinned true as well
+      alldiff  : n integers in [0, n-1], v_i == n-1-i pinned, alldifferent(vs) (two models: p, q take the two missing values
+                 either way round)                                                  | v_p pinned to the value of v_(p+1)"""
+    import cspuz
+    from cspuz import Solver
+    from cspuz.expr import IntExpr, Op
+    s = Solver()
+    s._verif_sems = []
+    p, q = (5 * n) // 13, (11 * n) // 13
+    pin = [i % 3 != 1 for i in range(n)]
+
+    def ensure(c, shadow):
+        s.ensure(c)
+        s._verif_sems.append(shadow)
+    if form == "alldiff":
+        vs = list(s.int_array(n, 0, n - 1)) if n % 2 else [s.int_var(0, n - 1) for _ in range(n)]
+        nm = [f"i{v.id}" for v in vs]
+        base = {}
+        for i, v in enumerate(vs):
+            if i in (p, q):
+                continue
+            ensure(v == n - 1 - i, lambda a, k=nm[i], val=n - 1 - i: a[k] == val)
+            base[nm[i]] = n - 1 - i
+        if not sat:
+            ensure(vs[p] == n - 2 - p, lambda a, k=nm[p], val=n - 2 - p: a[k] == val)
+        ensure(cspuz.alldifferent(vs), lambda a: len(set(a[k] for k in nm)) == n)
+        models = []
+        if sat:
+            for vp, vq in ((n - 1 - q, n - 1 - p), (n - 1 - p, n - 1 - q)):      # in the order of the plain product
+                models.append(dict(base, **{nm[p]: vp, nm[q]: vq}))
+        s._verif_models = [{k: m[k] for k in nm} for m in models]
+        s._verif_point = s._verif_models[0] if models else {k: dict(base, **{nm[p]: n - 2 - p, nm[q]: n - 1 - q})[k] for k in nm}
+        s._verif_nary = len(s.constraints) - 1
+        s._verif_text = f"medium:{form}:n={n}:{'sat' if sat else 'unsat'}"
+        return s, [], vs
+    xs = list(s.bool_array(n)) if n % 2 else [s.bool_var() for _ in range(n)]
+    nm = [f"b{v.id}" for v in xs]
+    free = (p, q) if form in ("count_eq", "count_ge", "add_cond") else (p,)
+    base = {}
+    for i, x in enumerate(xs):
+        if i in free:
+            continue
+        if pin[i]:
+            ensure(x, lambda a, k=nm[i]: a[k])
+        else:
+            ensure(~x, lambda a, k=nm[i]: not a[k])
+        base[nm[i]] = pin[i]
+    T = sum(1 for i in range(n) if pin[i] and i not in free)
+    cnt = lambda a: sum(1 for k in nm if a[k])
+    if form == "count_eq":
+        k = T + 1 if sat else T + 3
+        ensure(cspuz.count_true(xs) == k, lambda a: cnt(a) == k)
+        frees = [(False, True), (True, False)]
+    elif form == "count_ge":
+        k = T + 2 if sat else T + 3
+        ensure(cspuz.count_true(xs) >= k, lambda a: cnt(a) >= k)
+        frees = [(True, True)]
+    elif form == "add_cond":
+        e = IntExpr(Op.ADD, [x.cond(1, 0) for x in xs])
+        if sat:
+            ensure(e <= T, lambda a: cnt(a) <= T)
+        else:
+            ensure(e < T, lambda a: cnt(a) < T)
+        frees = [(False, False)]
+    elif form == "fold_or":
+        if not sat:
+            ensure(~xs[p], lambda a: not a[nm[p]])
+        ops = [xs[i] if i == p else (~xs[i] if pin[i] else xs[i]) for i in range(n)]
+        ensure(cspuz.fold_or(ops), lambda a: any((a[nm[i]] if i == p else (a[nm[i]] != pin[i])) for i in range(n)))
+        frees = [(True,)]
+    elif form == "fold_and":
+        if not sat:
+            ensure(xs[p], lambda a: a[nm[p]])
+        ops = [~xs[i] if i == p else (xs[i] if pin[i] else ~xs[i]) for i in range(n)]
+        ensure(cspuz.fold_and(ops), lambda a: all(((not a[nm[i]]) if i == p else (a[nm[i]] == pin[i])) for i in range(n)))
+        frees = [(False,)]
+    else:
+        raise ValueError(form)
+    models = []
+    if sat:
+        for fv in frees:
+            m = dict(base, **{nm[i]: val for i, val in zip(free, fv)})
+            models.append({k: m[k] for k in nm})
+    s._verif_models = models
+    s._verif_point = models[0] if models else {k: dict({nm[i]: pin[i] for i in range(n)}, **base)[k] for k in nm}
+    s._verif_nary = len(s.constraints) - 1
+    s._verif_text = f"medium:{form}:n={n}:{'sat' if sat else 'unsat'}"
+    return s, xs, []
+
+
 def scalable_models(names, doms, trees, ev, or_op, and_op, limit=300000):
     """All models of a program that is too large for the plain product of its domains but is mostly decided by propagation:
     (1) domains are narrowed to a fixpoint with every constraint that mentions a single undecided variable (evaluated, not
